@@ -4,6 +4,7 @@ import (
 	"bytes"
 	"context"
 	"fmt"
+	"runtime/debug"
 	"sort"
 	"strings"
 
@@ -690,10 +691,10 @@ func (r *runner) tamperAll(label string, signed *lib.Transaction, pathSel []stri
 		}
 		ps := pathSel
 		if r.o.Tier != "thorough" {
-			// quick: every tampering through the cold path, the other paths for a rotating quarter
+			// quick: every tampering through the cold path, the other paths for a rotating fifth
 			ps = []string{"cold"}
 			r.rot++
-			if r.rot%4 == 0 {
+			if r.rot%5 == 0 {
 				ps = paths
 			}
 		}
@@ -717,6 +718,8 @@ func (r *runner) tamperAll(label string, signed *lib.Transaction, pathSel []stri
 
 // Run is the C05 driver.
 func Run(o *drv.Out) {
+	// every ApplyTransactions call allocates a full-size batch verifier (~50 MB): collect less often
+	debug.SetGCPercent(400)
 	w := newWorld()
 	defer w.cleanup()
 	for _, sc := range schemes {
@@ -850,10 +853,13 @@ func (r *runner) runMidBlock() {
 			}
 			return "ok signer=" + drv.Hex(senders[i])
 		}
+		for _, t := range txs {
+			r.declareContent(t)
+		}
+		r.flushFacts()
 		emit := func(i int, res string) {
 			t := txs[i]
-			cid := r.declareContent(t)
-			r.flushFacts()
+			cid := contentID(t)
 			r.o.Op(fmt.Sprintf("tx block %s %s %s %s", cid, keyToken(t.Signature.PublicKey), sigTok(t.Signature.Signature), drv.Hex(crypto.Hash(bzs[i])[:20])), res)
 			r.o.Count("path:block")
 			r.o.Nontrivial(r.o.CurCase() + "|" + fmt.Sprint(i) + "|" + res)
